@@ -24,19 +24,18 @@ an0 = report.Analysis()
 for p, m in mods.items():
     code, ctx, new, hits = report.run_property(m, an0, 'quick', write=False, quiet=True)
     base[p] = (code, len(hits))
-bad = 0
-for d in sorted(x for a in sys.argv[1:] for x in glob.glob(a)):
+def one(d):
     patch = os.path.join(d, 'patch.diff')
     if not os.path.exists(patch):
-        continue
+        return None
     name = os.path.basename(d.rstrip('/'))
     try:
         tmp = patched_tree(patch)
     except RuntimeError as e:
-        print(name, 'PATCH FAILED', str(e)[:100]); continue
+        return name, [f'  PATCH FAILED {str(e)[:100]}']
+    issues = []
     try:
         an = report.Analysis(root=tmp)
-        issues = []
         for p, m in mods.items():
             code, ctx, new, hits = report.run_property(m, an, 'quick', write=False, quiet=True)
             for i in new:
@@ -47,8 +46,18 @@ for d in sorted(x for a in sys.argv[1:] for x in glob.glob(a)):
                 issues.append(f'  KNOWN-LOST {p}: {base[p][1] - len(hits)} known finding(s) no longer matched')
     finally:
         shutil.rmtree(tmp)
-    print(name, 'clean' if not issues else f'{len(issues)} issue(s)')
-    for i in issues:
-        print(i)
-    bad += bool(issues)
-print('refactorings with issues:', bad)
+    return name, issues
+
+
+if __name__ == '__main__':
+    import multiprocessing
+    dirs = sorted(x for a in sys.argv[1:] for x in glob.glob(a))
+    with multiprocessing.Pool(14) as pool:
+        results = [r for r in pool.map(one, dirs) if r]
+    bad = 0
+    for name, issues in results:
+        print(name, 'clean' if not issues else f'{len(issues)} issue(s)')
+        for i in issues:
+            print(i)
+        bad += bool(issues)
+    print('refactorings with issues:', bad)
